@@ -145,3 +145,40 @@ mod t {
         );
     }
 }
+
+
+// ------------------------------------------------------------------------------------------------
+// Machine-stall monitor. Several oracles compare what the pooler did against ITS OWN real-time
+// limits (health-check / connect / statement timeouts of a few hundred ms). When the machine is so
+// loaded that a thread which asked to sleep 5 ms wakes up 150 ms late, the pooler's timeouts fire
+// for reasons that have nothing to do with the servers' health. Such stretches are recorded here,
+// and verdicts that depend on real time are not issued for them (they count as not observed).
+static STALLS: std::sync::Mutex<Vec<(u64, u64)>> = std::sync::Mutex::new(Vec::new());
+static MONITOR_STARTED: std::sync::atomic::AtomicBool = std::sync::atomic::AtomicBool::new(false);
+
+pub fn start_stall_monitor() {
+    if MONITOR_STARTED.swap(true, std::sync::atomic::Ordering::SeqCst) {
+        return;
+    }
+    std::thread::Builder::new()
+        .name("stall-monitor".into())
+        .spawn(|| loop {
+            let t0 = now_ns();
+            std::thread::sleep(std::time::Duration::from_millis(5));
+            let dt = now_ns() - t0;
+            if dt > 40_000_000 {
+                let mut g = STALLS.lock().unwrap();
+                g.push((t0, dt - 5_000_000));
+                let n = g.len();
+                if n > 20_000 {
+                    g.drain(..n - 10_000);
+                }
+            }
+        })
+        .ok();
+}
+
+/// Longest scheduling delay (ms) this process observed between t0 and t1 (monotonic ns).
+pub fn max_stall_ms(t0: u64, t1: u64) -> u64 {
+    STALLS.lock().unwrap().iter().filter(|(t, d)| *t + *d >= t0 && *t <= t1).map(|(_, d)| d / 1_000_000).max().unwrap_or(0)
+}
